@@ -335,6 +335,18 @@ pub fn oracles(ctx: &mut Ctx, p: &Packet, out: Option<&[u8]>, consumed: &[u8], c
         return;
     };
     ctx.oracle(&format!("accepted_object_serializes{suffix}"), &format!("{t}::to_writer_with_header"), input, true, "");
+    // the same object through the generic paths (a reference, a generic function over `PacketTrait`):
+    // the same octets and the same announced length
+    {
+        fn via<T: PacketTrait>(t: T) -> (Option<Vec<u8>>, usize) {
+            let mut v = Vec::new();
+            let ok = t.to_writer_with_header(&mut v).is_ok();
+            (ok.then_some(v), t.write_len_with_header())
+        }
+        let r = crate::ctx::guarded(|| (via(p), via(&p)));
+        let same = matches!(&r, Ok(((Some(a), la), (Some(b), lb))) if a.as_slice() == out && b.as_slice() == out && *la == out.len() && *lb == out.len());
+        ctx.oracle(&format!("length_truthful{suffix}"), &format!("{t} through &T / generic PacketTrait::to_writer_with_header"), input, same, &format!("{:?}", r.as_ref().map(|((a, la), (b, lb))| (a.as_ref().map(|x| x.len()), *la, b.as_ref().map(|x| x.len()), *lb))));
+    }
     // "serializes to bytes that parse back to an equal value"
     // (the stored packet header keeps how the *input* encoded its length — partial / non-minimal
     // legacy length type / a length that shrinks on normalisation; that is a property of the old
